@@ -787,6 +787,10 @@ def run(rep, tier):
             scaneval.clause(get_facts(cfg6), rep, tier)
         except AnalysisBroken as ex:
             rep.broken.append(str(ex))
+    # the cached white-space bitmap is also exercised by the byte-level evaluation (consecutive SkipOne calls): the
+    # shape rule on the mask shift is decided together with it
+    rep.corroborate('E3.shift-range', 'E5.skip-extent')
+    rep.corroborate_floor('C11: cached-bitmap', 'E5.skip-extent')
     rep.trust('clang 14 front end')
     rep.assumptions += [
         'decides only: wrong-kind step and negative index yield an error, an index past the end of an array is noticed at the closing bracket, escaped keys are decoded before comparison whenever they could match, errors are negated, slice cleared on error, target parsed only on success',
